@@ -90,7 +90,49 @@ fn back_is_wrong(want: &[u8], _store: &TensorStore, id: &str, blob: &BlobStore) 
     !matches!(block_on(blob.get(id)), Ok(ref b) if b == want)
 }
 
+
+/// C08 C4: n checkpoints with strictly increasing creation times, names all distinct and then all equal; enforce(max) must leave
+/// exactly the newest min(n, max), each loadable by id with its own image, and report n - kept deletions.
+fn retention_enforce(req: &Value) -> Value {
+    use tensor_checkpoint::{CheckpointMetadata, CheckpointState, CheckpointStorage, RetentionManager};
+    let n = req["n"].as_u64().unwrap_or(4).max(1);
+    let n = if req["op_kind"].as_str() == Some("order") { 4 } else { n.max(2) };
+    let max = req["max"].as_u64().unwrap_or(2).min(n) as usize;
+    let mut bad: Vec<String> = vec![];
+    for same_names in [false, true] {
+        // creation order must not matter: store the newest first in one round, last in the other
+        for newest_first in [false, true] {
+            let blob = match block_on(BlobStore::new(TensorStore::new(), BlobConfig::default())) { Ok(b) => b, Err(e) => return json!({"error": e.to_string()}) };
+            let order: Vec<u64> = if newest_first { (0..n).rev().collect() } else { (0..n).collect() };
+            for i in order {
+                let name = if same_names { "nightly".to_string() } else { format!("cp-{i}") };
+                let mut state = CheckpointState::new(format!("id-{i}"), name, vec![i as u8 + 1], CheckpointMetadata::default());
+                state.created_at = 1_000 + i;
+                if let Err(e) = block_on(CheckpointStorage::store(&state, &blob)) { return json!({"error": e.to_string()}); }
+            }
+            let removed = match block_on(RetentionManager::new(max).enforce(&blob)) { Ok(r) => r, Err(e) => { bad.push(format!("enforce: {e}")); continue } };
+            let kept = max.min(n as usize);
+            if removed != n as usize - kept { bad.push(format!("same_names={same_names}: {removed} reported removed, expected {}", n as usize - kept)); }
+            let list = block_on(CheckpointStorage::list(&blob)).unwrap_or_default();
+            let ids: Vec<String> = list.iter().map(|c| c.id.clone()).collect();
+            let want: Vec<String> = (0..n).rev().take(kept).map(|i| format!("id-{i}")).collect();
+            if ids != want { bad.push(format!("same_names={same_names} newest_first={newest_first}: kept {ids:?}, expected {want:?}")); }
+            for i in (0..n).rev().take(kept) {
+                match block_on(CheckpointStorage::load(&format!("id-{i}"), &blob)) {
+                    Ok(s) if s.store_snapshot == vec![i as u8 + 1] => {}
+                    Ok(_) => bad.push(format!("id-{i} loads another image")),
+                    Err(e) => bad.push(format!("id-{i}: {e}")),
+                }
+            }
+        }
+    }
+    json!({"problems": bad, "violates": !bad.is_empty()})
+}
+
 pub fn handle(op: &str, req: &Value) -> Option<Value> {
+    if op == "retention_enforce" {
+        return Some(retention_enforce(req));
+    }
     if op == "blob_step" && req["blob_op"].as_str() == Some("chunking") {
         return Some(chunking(req));
     }
